@@ -251,6 +251,15 @@ def out_contract_rule(chk, prog):
                     base = strip_casts(resolve_ptr(prog, x.ops[0], f.unit)[0])
                     if base is inp:
                         decoded = True
+                elif x.is_inst and x.op == "call" and x.callee:
+                    # a static helper that picks the number out of the block it is handed
+                    h = prog.fn(x.callee, f.unit)
+                    if h is not None and not h.decl and h.unit is f.unit:
+                        for k_, a_ in enumerate(x.ops[:len(h.params)]):
+                            if strip_casts(resolve_ptr(prog, a_, f.unit)[0]) is inp:
+                                par = h.build().params[k_]
+                                if any(i_.op == "load" and strip_casts(resolve_ptr(prog, i_.ops[0], h.unit)[0]) is par for i_ in h.insts()):
+                                    decoded = True
             if not decoded:
                 continue
             n += 1
@@ -342,6 +351,35 @@ def loop_guard_rule(chk, prog):
         chk.broke("no linking guarded by the ancestor check found in read_tree.c")
 
 
+def _from_super(prog, f, v, depth=0):
+    """the value derives from superblock fields or from the caller's own limits -- directly, or through a local that a
+    static helper filled from them (`get_bounds(super, &lower, &upper)`)"""
+    if any(s_.startswith("struct.sqfs_super_t") for (s_, _n) in fields_in_slice(v)) or any(x.is_arg for x in backward_slice(v)):
+        return True
+    if depth > 2:
+        return False
+    for x in [strip_casts(v)] + list(backward_slice(v)):
+        if not (x.is_inst and x.op == "load"):
+            continue
+        al = strip_casts(x.ops[0])
+        if not (al.is_inst and al.op == "alloca"):
+            continue
+        for c in f.uses.get(al, []):
+            if c.op != "call" or not c.callee:
+                continue
+            h = prog.fn(c.callee, f.unit)
+            if h is None or h.decl or h.unit is not f.unit:
+                continue
+            ks = [k for k, a in enumerate(c.ops) if strip_casts(a) is al]
+            if not ks or ks[0] >= len(h.params):
+                continue
+            par = h.build().params[ks[0]]
+            sts = [i for i in h.insts() if i.op == "store" and strip_casts(i.ops[1]) is par]
+            if sts and all(_from_super(prog, h, i.ops[0], depth + 1) for i in sts):
+                return True
+    return False
+
+
 def table_window_rule(chk, prog):
     """C05-c: table readers are given lower/upper limits that derive from superblock fields"""
     n = 0
@@ -359,10 +397,8 @@ def table_window_rule(chk, prog):
             n += 1
             chk.analysed(f)
             inst = "%s:%s@%d" % (f.name, nm, c.line)
-            okhi = any(s.startswith("struct.sqfs_super_t") for (s, _n) in fields_in_slice(hi)) or \
-                any(x.is_arg for x in backward_slice(hi))
-            oklo = any(s.startswith("struct.sqfs_super_t") for (s, _n) in fields_in_slice(lo)) or \
-                any(x.is_arg for x in backward_slice(lo)) or (lo.is_const and False)
+            okhi = _from_super(prog, f, hi)
+            oklo = _from_super(prog, f, lo)
             if okhi and oklo:
                 chk.ok("K13-window", inst, c, "both limits derive from superblock table positions (or the caller's limits)")
             else:
